@@ -51,7 +51,24 @@ AXIS = [([0, 0, 0], 1), ([1, 0, 0], 1), ([0, 1, 0], 1), ([0, 0, 1], 1), ([-1, 0,
 
 
 def worker(a):
+    """every fourth behaviour is replayed with xfab.CHECKS.activated = False (restored afterwards): what a conversion returns for a
+    valid input does not depend on the switch"""
     rec, us = a
+    import xfab
+    off = (rec["D"] + len(rec["path"]) + int(rec["G"][0])) % 4 == 0
+    was = xfab.CHECKS.activated
+    try:
+        if off:
+            xfab.CHECKS.activated = False
+        n, out = _worker(rec, us)
+        if off:
+            out = [o + " [input checks switched off]" for o in out]
+        return n, out
+    finally:
+        xfab.CHECKS.activated = was
+
+
+def _worker(rec, us):
     import importlib
     import numpy as np
     out = []
@@ -156,6 +173,16 @@ def qr_worker(a):
         tag = "xfab.%s M=%s" % (modname, M)
         try:
             U, B = mod.ub_to_u_b(Mf.copy())
+            # the same split with the input checks switched off (restored at once): same U, same B
+            import xfab
+            was_ = xfab.CHECKS.activated
+            try:
+                xfab.CHECKS.activated = False
+                U_off, B_off = mod.ub_to_u_b(Mf.copy())
+            finally:
+                xfab.CHECKS.activated = was_
+            if not (np.array_equal(np.asarray(U_off), np.asarray(U)) and np.array_equal(np.asarray(B_off), np.asarray(B))):
+                out.append("ub_to_u_b returns a different split with the input checks switched off (%s)" % tag)
         except Exception as ex:
             out.append("ub_to_u_b raised %r on a matrix with det %d > 0 (%s)" % (ex, det, tag))
             continue
